@@ -7,12 +7,12 @@ TIER=quick; TESTS=1
 for a in "$@"; do case "$a" in --notests) TESTS=0;; quick|thorough) TIER=$a;; esac; done
 WT=$(mktemp -d /tmp/wt-seed-XXXXXX); rmdir "$WT"
 git -C /repo worktree add -q --detach "$WT" HEAD || exit 3
-cp "$DIR/demo.py" "$WT/_seed_demo.py"
-( cd "$WT" && PYTHONPATH="$WT" timeout 300 /venv/bin/python _seed_demo.py >/dev/null 2>&1 ); echo "demo without patch: rc=$?"
+mkdir -p "$WT/SEEDS/x"; cp "$DIR/demo.py" "$WT/SEEDS/x/demo.py"
+( cd "$WT" && PYTHONPATH="$WT" timeout 300 /venv/bin/python SEEDS/x/demo.py >/dev/null 2>&1 ); echo "demo without patch: rc=$?"
 if ! git -C "$WT" apply "$DIR/patch.diff" 2>/dev/null; then
   if ! git -C "$WT" apply --3way "$DIR/patch.diff" 2>/dev/null; then echo "PATCH DOES NOT APPLY to current /repo HEAD"; git -C /repo worktree remove --force "$WT"; exit 4; fi
 fi
-( cd "$WT" && PYTHONPATH="$WT" timeout 300 /venv/bin/python _seed_demo.py >/dev/null 2>&1 ); echo "demo with patch: rc=$?"
+( cd "$WT" && PYTHONPATH="$WT" timeout 300 /venv/bin/python SEEDS/x/demo.py >/dev/null 2>&1 ); echo "demo with patch: rc=$?"
 if [ $TESTS = 1 ]; then
   ( cd "$WT" && PYTHONPATH="$WT" /venv/bin/python -m pytest -q -p no:cacheprovider --timeout=900 -n 8 tests 2>&1 | tail -1 )
 fi
